@@ -214,8 +214,8 @@ inline Shape shapeD3(uint64_t i)
 // ================================================================= (f) scale
 static const char *SCALE_KINDS[] = {"apply-depth", "apply-siblings", "component_ref-depth", "component_ref-siblings", "units-chain", "unit-siblings", "units-diamond",
                                     "import-chain", "import-siblings", "variables", "map_variables", "equivalence-chain", "piecewise-pieces", "piecewise-depth",
-                                    "units-chain-in-connection", "imported-units-chain"};
-static const size_t N_SCALE_KINDS = 16;
+                                    "units-chain-in-connection", "imported-units-chain", "blanks-in-token-x600", "blanks-between-elements-x600"};
+static const size_t N_SCALE_KINDS = 18;
 inline std::string head20(const std::string &name, bool xlink = false)
 {
     return std::string(PROLOG "<model xmlns=\"" NS20 "\"") + (xlink ? " xmlns:xlink=\"" NSXLINK "\"" : "") + " name=\"" + name + "\">";
@@ -321,6 +321,17 @@ inline std::vector<Doc> scaleDocs(size_t kind, int n)
         for (int i = 0; i < n; ++i) e = "<piecewise><piece>" + x + "<true/></piece><otherwise>" + e + "</otherwise></piecewise>";
         return {{"main.xml", mathDoc(rhsCtx(e), "xy")}};
     }
+    case 16: { // 600 n blanks inside a token (n = 100: 60 000 characters, the most a 64 KiB document can hold), a few more in the others
+        std::string b(size_t(600) * n, ' '), nl(size_t(10) * n, '\n');
+        return {{"main.xml", mathDoc("<apply><eq/><ci>y" + b + "</ci><apply><plus/><ci>" + nl + "x</ci><cn cellml:units=\"dimensionless\">1" + nl + "</cn></apply></apply>", "xy")}};
+    }
+    case 17: { // the same amount of blanks between elements, in the math and in the CellML part
+        std::string b(size_t(200) * n, ' ');
+        std::string m = mathDoc("<apply>" + b + "<eq/><ci>y</ci>" + b + "<ci>x</ci></apply>", "xy");
+        size_t at = m.find("<component");
+        m.insert(at, b);
+        return {{"main.xml", m}};
+    }
     }
     return {};
 }
@@ -355,7 +366,7 @@ inline GenCase scaleBigCase(uint64_t i)
 {
     Radix r(i);
     bool strict = r.take(2) == 0;
-    size_t st = r.take(N_SINGLE), kind = r.take(N_SCALE_KINDS - 1); // imported-units-chain already fails at n = 10 in `scale`
+    size_t st = r.take(N_SINGLE), kind = r.take(N_SCALE_KINDS - 3); // imported-units-chain already fails at n = 10 in `scale`; the blanks kinds would exceed 64 KiB
     return scaleCaseOf(kind, kind == 6 ? 18 : 1000, st, strict);
 }
 inline GenCase scaleHangCase(uint64_t i) { return scaleCaseOf(6, 64, i, true); }
@@ -513,7 +524,7 @@ inline const std::vector<GenFamily> &genFamilies()
         {"scale", [] { return uint64_t(N_SCALE_KINDS * 3 * N_SINGLE * 2); }, scaleCase},
         {"conn", [] { return uint64_t(connGraphs().size() * N_SINGLE); }, connCase},
         {"scale_mid", [] { return uint64_t(N_SCALE_KINDS * N_SINGLE * 2); }, scaleMidCase},
-        {"scale_big", [] { return uint64_t((N_SCALE_KINDS - 1) * N_SINGLE * 2); }, scaleBigCase},
+        {"scale_big", [] { return uint64_t((N_SCALE_KINDS - 3) * N_SINGLE * 2); }, scaleBigCase},
         {"scale_hang", [] { return uint64_t(N_SINGLE); }, scaleHangCase},
         {"cycles", [] { return uint64_t(N_CYCLE_KINDS * 3 * N_SINGLE * 2); }, cycleCase},
     };
